@@ -25,7 +25,6 @@ Definition m_piece (x : piece) : @mval F :=
 Definition m_res {A} (f : A -> @mval F) (self : @mval F) (r : res A) : option (res (@mval F * @mval F)) :=
   Some (match r with Ok a => Ok (self, f a) | Panic => Panic end).
 
-Ltac mr_exec2 := unfold run_fn; repeat (mr_norm; first [reflexivity | mr_split]); mr_norm; try reflexivity.
 
 Theorem C06_gen_get_piece (p : @mp F) (t : Z) :
   run_fn c (g_mp_get_piece c) (m_mp p) [("t", m_t t)] = Some (Ok (m_mp p, m_piece (mp_piece p t))).
@@ -49,7 +48,10 @@ Proof. destruct p. unfold mp_pos, t1_term. mr_exec2. Qed.
 
 Theorem C06_gen_history_get (p : @mp F) (t : Z) :
   run_fn c (g_mp_history_get c) (m_mp p) [("time", m_t t)] = m_res (m_opt (m_dat VC)) (m_mp p) (mp_history c p t).
-Proof. destruct p. unfold mp_history, mp_mode, mp_acc, mp_vel, mp_pos, t1_term. mr_exec2. Qed.
+Proof.
+  (* the kind of the end command is analysed first: the body matches on it *)
+  destruct p as [sp sv t1 t2 t3 ma [k v]]; destruct k; unfold mp_history, mp_mode, mp_acc, mp_vel, mp_pos, t1_term; mr_exec2.
+Qed.
 End C06Streams.
 Print Assumptions C06_gen_get_piece.
 Print Assumptions C06_gen_get_mode.
